@@ -285,6 +285,9 @@ theorem bolt_cp_tail_spec : type_of% @HC.c20_cpTail_spec := @HC.c20_cpTail_spec
 example : BoltCp.new 3 9 9 32 = .ok ⟨32, 3, 3, 9, 9, 4, 8, 2, 4⟩ := by rfl
 example (x w : Nat → ℤ) := bolt_cp_new (show BoltCp.new 3 9 9 32 = .ok ⟨32, 3, 3, 9, 9, 4, 8, 2, 4⟩ by rfl) ⟨5, rfl⟩
   (by decide) x w
+/-- ... over ℤ/t (slot vectors of a BFV plaintext): the product modulo the plain modulus -/
+example (t : Nat) (x w : Nat → ZMod t) := bolt_cp_new (show BoltCp.new 3 9 9 32 = .ok ⟨32, 3, 3, 9, 9, 4, 8, 2, 4⟩ by rfl) ⟨5, rfl⟩
+  (by decide) x w
 /-- ... and the model's pipeline on that shape over ℤ/97 (x[i] = 7i + 3, w[i] = 11i + 5): entry (2, 8) is Σ_k x[2·9 + k]·w[9k + 8] -/
 example : (do
     let h ← BoltCp.new 3 9 9 32
